@@ -1,9 +1,10 @@
 import BeyondVerif.Model.Cov
+import BeyondVerif.Model.CovHeap
 import BeyondVerif.Model.LocalF
 import BeyondVerif.Generated.Frames
 import BeyondVerif.Drv.Util
 namespace BeyondVerif.Drv.C14
-open BeyondVerif BeyondVerif.Drv BeyondVerif.Cov
+open BeyondVerif BeyondVerif.Drv BeyondVerif.Cov BeyondVerif.CovHeap
 
 abbrev M := List (List Float)
 
@@ -76,7 +77,136 @@ def pairs : List String → List (String × String)
   | a :: b :: rest => (a, b) :: pairs rest
   | _ => []
 
+
+/-! ### several objects in one process (Model/CovHeap.lean) -/
+
+abbrev H := Heap String Nat M (List Float)
+
+def emptyHeap : H :=
+  { buf := fun _ => nanM, data := fun _ => { tag := .loc .qsw, orb := 0 },
+    orb := fun _ => { date := 0, frame := "", x := [] },
+    obj := fun _ => { buf := 0, tr := false, data := 0, orbFrame := none },
+    sv := fun _ => { date := 0, frame := "", x := [], cov := none },
+    nbuf := 0, ndata := 0, norb := 0, nobj := 0 }
+
+def henvOf (table : List (Nat × String × String × M)) : HEnv String Nat M (List Float) where
+  base := envOf []
+  convAt d a b := match table.find? (fun e => e.1 == d && e.2.1 == a && e.2.2.1 == b) with
+    | some e => e.2.2.2
+    | none => nanM
+
+partial def parseSvs : Nat → Nat → H → List String → Option (H × List String)
+  | 0, _, h, rest => some (h, rest)
+  | n + 1, k, h, d :: f :: rest => do
+    let d ← d.toNat?
+    let f ← getFrame f
+    let (x, rest) ← takeFloats 6 rest
+    parseSvs n (k + 1) { h with sv := upd h.sv k { date := d, frame := f, x := x, cov := none } } rest
+  | _, _, _, _ => none
+
+partial def parseTableD : Nat → List String → Option (List (Nat × String × String × M) × List String)
+  | 0, rest => some ([], rest)
+  | n + 1, d :: a :: b :: rest => do
+    let d ← d.toNat?
+    let (fs, rest) ← takeFloats 36 rest
+    let (t, rest) ← parseTableD n rest
+    pure ((d, a, b, rows6 fs) :: t, rest)
+  | _, _ => none
+
+def dumpH (E : HEnv String Nat M (List Float)) (h : H) (ns : Nat) : String :=
+  let objs := (List.range h.nobj).map (fun i =>
+    let v := h.view E i
+    joinWith " " [tagStr v.tag, (v.orbFrame.getD "-"), v.orbCur, toString v.date, fsToStr v.orb, fsToStr v.mat.flatten])
+  let svs := (List.range ns).map (fun s => (h.sv s).frame)
+  joinWith " " ([toString h.nobj] ++ objs ++ svs)
+
+def scaleF (k : Float) (m : M) : M := m.map (fun r => r.map (fun v => k * v))
+def addF (a b : M) : M := (a.zip b).map (fun p => (p.1.zip p.2).map (fun q => q.1 + q.2))
+
+/-- one operation; returns the new heap, the error token ("ok" when the statement completed) and the remaining tokens -/
+def stepH (E : HEnv String Nat M (List Float)) (ns : Nat) (h : H) : List String → Option (H × String × List String)
+  | "new" :: s :: tag :: rest => do
+    let s ← s.toNat?
+    let (fs, rest) ← takeFloats 36 rest
+    if s ≥ ns then none
+    else match target tag with
+      | some t => pure (h.newCov s t (rows6 fs), "ok", rest)
+      | none => pure (h, "unknown-frame", rest)
+  | "from" :: s :: i :: rest => do
+    let s ← s.toNat?; let i ← i.toNat?
+    if s ≥ ns || i ≥ h.nobj then none else pure (h.fromCov E s i, "ok", rest)
+  | "att" :: s :: i :: rest => do
+    let s ← s.toNat?; let i ← i.toNat?
+    if s ≥ ns || i ≥ h.nobj then none else pure (h.attach s i, "ok", rest)
+  | "hop" :: i :: name :: rest => do
+    let i ← i.toNat?
+    if i ≥ h.nobj then none
+    else match target name with
+      | none => pure (h, "unknown-frame", rest)
+      | some t => pure (h.hop E i t, if hopOk (h.view E i) t then "ok" else "attribute", rest)
+  | "svh" :: s :: name :: rest => do
+    let s ← s.toNat?
+    if s ≥ ns then none
+    else match getFrame name with
+      | none => pure (h, "unknown-frame", rest)
+      | some g => pure (h.svHop E s g, if h.svHopOk E s g then "ok" else "attribute", rest)
+  | "scale" :: i :: k :: rest => do
+    let i ← i.toNat?; let k ← fOfStr? k
+    if i ≥ h.nobj then none else pure (h.map E i (scaleF k), "ok", rest)
+  | "dup" :: i :: rest => do
+    let i ← i.toNat?
+    if i ≥ h.nobj then none else pure (h.map E i id, "ok", rest)
+  | "add" :: i :: j :: rest => do
+    let i ← i.toNat?; let j ← j.toNat?
+    if i ≥ h.nobj || j ≥ h.nobj then none else pure (h.map2 E i j addF, "ok", rest)
+  | "view" :: i :: k :: rest => do
+    let i ← i.toNat?
+    if i ≥ h.nobj then none else pure (h.mkView i (k == "T"), "ok", rest)
+  | "imul" :: i :: k :: rest => do
+    let i ← i.toNat?; let k ← fOfStr? k
+    if i ≥ h.nobj then none else pure (h.write E i (scaleF k), "ok", rest)
+  | "copy" :: i :: name :: rest => do
+    let i ← i.toNat?
+    if i ≥ h.nobj then none
+    else if name == "-" then pure (h.copyCov E i, "ok", rest)
+    else match target name with
+      | none => pure (h, "unknown-frame", rest)
+      | some t => pure ((h.copyCov E i).hop E h.nobj t, "ok", rest)
+  | "pkl" :: i :: rest => do
+    let i ← i.toNat?
+    if i ≥ h.nobj then none else pure (h.pickle E i, "ok", rest)
+  | _ => none
+
+partial def runH (E : HEnv String Nat M (List Float)) (ns : Nat) (h : H) (toks : List String) (acc : List String) : List String :=
+  match toks with
+  | [] => acc.reverse
+  | _ =>
+    match stepH E ns h toks with
+    | some (h', e, rest) => runH E ns h' rest ((e ++ " " ++ dumpH E h' ns) :: acc)
+    | none => ("bad-op" :: acc).reverse
+
+/-- `heap <ns> {<date idx> <frame> <x 6>}^ns <k> {<date idx> <a> <b> <36 floats>}^k <ops…>` →
+after every op, separated by `|`: error token, number of objects, per object (tag, `_orb_frame` or `-`,
+frame of the private copy, its date index, its 6 coordinates, the 36 values), the frame of every state -/
+def handleHeap : List String → String
+  | ns :: rest =>
+    match ns.toNat? with
+    | none => "bad-op"
+    | some ns =>
+      match parseSvs ns 0 emptyHeap rest with
+      | none => "unknown-frame"
+      | some (h, k :: rest) =>
+        match k.toNat? with
+        | none => "bad-op"
+        | some k =>
+          match parseTableD k rest with
+          | none => "bad-op"
+          | some (table, ops) => joinWith " | " (runH (henvOf table) ns h ops [])
+      | some _ => "bad-op"
+  | _ => "bad-op"
+
 def handle : List String → Option String
+  | "heap" :: rest => some (handleHeap rest)
   | "cov" :: f0 :: tag0 :: rest => some <| Id.run do
     match takeFloats 42 rest with
     | some (fs, k :: rest) =>
